@@ -46,6 +46,7 @@ func replay(path string) {
 		Bits      string          `json:"bits"`
 		Ns        string          `json:"ns"`
 		Index     int             `json:"index"`
+		Context   int             `json:"context"`
 		Tree      *tnode          `json:"tree"`
 		Case      json.RawMessage `json:"case"`
 	}
@@ -100,6 +101,8 @@ func replay(path string) {
 		sig, what = checkMarshalerTree(r.Tree, marshalerLeaves())
 	case "any-tree":
 		sig, what, _ = checkAnyTree(r.Path, r.Tree, anyLeaves())
+	case "any-kind":
+		sig, what, _ = checkKind(r.Index, r.Context, r.Path)
 	case "omittable":
 		for _, f := range omittableCases()[r.Index].run() {
 			if sig == "" || f[0] == file.Signature {
